@@ -1599,7 +1599,24 @@ LIB = {
     'bisect.bisect': bisect_right, 'bisect.bisect_right': bisect_right,
     'warnings.warn': warnings_warn, 'itertools.product': itertools_product,
     'time.time': lambda ip, a, k: fresh_real('time'),
+    'numpy.finfo': lambda ip, a, k: _finfo(ip),
+    'numpy.log': lambda ip, a, k: _real_fn(ip, 'lib_numpy_log', a), 'math.log': lambda ip, a, k: _real_fn(ip, 'lib_numpy_log', a),
 }
+
+def _real_fn(ip, name, args):
+    """real function of a real scalar: uninterpreted, real-valued"""
+    x = args[0]
+    if is_num(x) and not isinstance(x, Cx):
+        return uf(name, to_real(x), sort=z3.RealSort())
+    return uf(name, _idx_flat(x))
+
+
+def _finfo(ip):
+    """np.finfo(float): eps is a positive constant below 1 (its value 2**-52 is not needed by any contract)"""
+    eps = z3.Real('FLOAT_EPS')
+    ip.add_pc(z3.And(eps > 0, eps < 1))
+    return Obj('finfo', {'eps': eps, 'tiny': z3.Real('FLOAT_TINY'), 'max': z3.Real('FLOAT_MAX')})
+
 
 PURE_PREFIXES = ('numpy.', 'scipy.', 'tensornetwork.', 'math.', 'numdifftools.', 'functools.')
 
